@@ -1,6 +1,7 @@
 """C06 — checkpoint/restore at any time boundary is invisible (spec/ckpt/Checkpoint.tla over TickImpl.tla)."""
 import os
 from vlib import core, tickcheck, tracecheck
+from vlib import netckpt
 
 LEVEL = "model_checking"
 TECHNIQUE = "TLA+ model of save/rebuild/load over the tick model checked by TLC (cut at every boundary of every behaviour, negative controls); on the real code every distinct event time of every run is a cut point: resumed run compared with the uninterrupted one and monitored by TLC"
@@ -10,7 +11,7 @@ LEVEL_TEXT = ("Checkpoint.tla adds a Cut action (snapshot in pop order, guards, 
               "event-driven components, direct connections, an ideal memory controller with storage) registered with simulation.Simulation, EVERY distinct event time is cut: "
               "RunUntil(t), SaveCheckpoint, rebuild, LoadCheckpoint, Run; the remaining event/message trace (with IDs) and every entity's final payload (components, ports, "
               "connections, storage, engine, ID generator) must equal the uninterrupted run; the spliced trace is monitored by TickTrace.tla.")
-LEVEL_NOTE = ("Assemblies: the tick-family systems (+ideal memory); memory/translation/network assemblies of other checks are not yet cut. "
+LEVEL_NOTE = ("Assemblies: the tick-family systems (+ideal memory) and networks (switches, endpoints; vlib/netckpt.py); memory-hierarchy and translation stacks are being added. "
               "IDs: with the simulation's always-attached DB tracer, port buffer tracing consumes IDs through a side table that is not checkpointed (documented 'run with tracing off', "
               "but the hook is attached by RegisterComponent itself): recorded as a known finding when a message sits in a port buffer at the cut and the runs are equal once IDs are erased.")
 
@@ -56,4 +57,6 @@ def run(ck):
         raise core.Broken("spliced traces do not fit TickTrace: matched %s next %s" % (v.matched, v.next))
     for c in v.tlc.tagged.get("CASE", []):
         ck.report({"kind": "monitor", "class": c["class"]}, "spliced run violates %s: %s" % (c["class"], c.get("d")), {"case": c})
+    # networks (meshes, PCIe trees, hybrids, connector graphs): every cut, own process per simulation
+    netckpt.run_c06(ck)
     ck.cov["exhaustive"] = True
